@@ -322,13 +322,16 @@ func makeDataPlane(runConfig RunConfig, authSCMP bool) dataPlane {
 	// than in AddInternalInterface. Currently there can be no dataplane without the udpip provider,
 	// therefore not having a registered factory for it is a panicable offsense. We have no plan B.
 
+	udpip := underlayProviders["udpip"](
+		runConfig.BatchSize,
+		runConfig.ReceiveBufferSize,
+		runConfig.SendBufferSize,
+	)
+	// Until SetPortRange is called, the range of dispatched ports is empty.
+	udpip.SetDispatchPorts(0, 0, topology.EndhostPort)
 	return dataPlane{
 		underlays: map[string]UnderlayProvider{
-			"udpip": underlayProviders["udpip"](
-				runConfig.BatchSize,
-				runConfig.ReceiveBufferSize,
-				runConfig.SendBufferSize,
-			),
+			"udpip": udpip,
 		},
 		Metrics:                        metrics,
 		ExperimentalSCMPAuthentication: authSCMP,
@@ -409,9 +412,16 @@ func (d *dataPlane) SetKey(key []byte) error {
 	return nil
 }
 
+// SetPortRange sets the range of ports that are dispatched directly to end-hosts. This can be
+// called at any time, before or after the interfaces are added: every underlay provider is told.
 func (d *dataPlane) SetPortRange(start, end uint16) {
+	d.mtx.Lock()
+	defer d.mtx.Unlock()
 	d.dispatchedPortStart = start
 	d.dispatchedPortEnd = end
+	for _, u := range d.underlays {
+		u.SetDispatchPorts(start, end, topology.EndhostPort)
+	}
 }
 
 // AddInternalInterface sets the interface the data-plane will use to send/receive traffic in the
@@ -481,6 +491,8 @@ func (d *dataPlane) AddExternalInterface(
 			d.RunConfig.ReceiveBufferSize,
 			d.RunConfig.SendBufferSize,
 		)
+		underlay.SetDispatchPorts(
+			d.dispatchedPortStart, d.dispatchedPortEnd, topology.EndhostPort)
 		d.underlays[link.Provider] = underlay
 	}
 	d.linkTypes[ifID] = link.LinkTo
@@ -627,6 +639,8 @@ func (d *dataPlane) AddNextHop(
 			d.RunConfig.ReceiveBufferSize,
 			d.RunConfig.SendBufferSize,
 		)
+		underlay.SetDispatchPorts(
+			d.dispatchedPortStart, d.dispatchedPortEnd, topology.EndhostPort)
 		d.underlays[link.Provider] = underlay
 	}
 	d.linkTypes[ifID] = link.LinkTo
